@@ -17,6 +17,10 @@ impl core::cmp::PartialOrd for RustTarget {
     #[verifier::external_body]
     fn partial_cmp(&self, other: &RustTarget) -> (r: Option<core::cmp::Ordering>) { unimplemented!() }
 }
+impl RustTarget {
+    pub uninterp spec fn s_latest_edition(self) -> RustEdition;
+    #[verifier::external_body] pub fn latest_edition(self) -> (r: RustEdition) ensures r == self.s_latest_edition() { unimplemented!() }
+}
 pub const LATEST_STABLE_RUST: RustTarget = RustTarget(82);
 pub const EARLIEST_STABLE_RUST: RustTarget = RustTarget(51);
 #[derive(Clone, Copy, PartialEq, Eq, Structural)]
